@@ -267,6 +267,9 @@ def gen_spec(r) -> dict:
 def uniform_flag_options(spec: dict) -> bool:
     """A keyword flag is forwarded to nested dataclasses and then overrides THEIR Config value, so 'a flag only adds
     a keyword' is claimed only for families whose classes agree on the Config value of the flag-steered options."""
+    if spec.get("base_dialect") is not None and any(
+            c.get("config") is not None and "dialect" not in c["config"].get("flags", ["dialect"]) for c in spec["classes"].values()):
+        return False      # the classes' own default dialect reaches only the classes with dialect support
     for flag, opt in (("omit_none", "omit_none"), ("by_alias", "serialize_by_alias")):
         if flag in spec.get("flags", []):
             vals = {json.dumps(c["config"].get(opt)) for c in spec["classes"].values() if c.get("config") is not None}
@@ -625,13 +628,6 @@ def classify_history_failure(hr: HistoryRun, mm: dict) -> dict:
     if mm.get("kind"):
         return {"kind": mm["kind"], "direction": direction}
     sig = {"kind": "call-dialect-differs-from-twin", "direction": direction}
-    obs = mm["observed"][0] if direction in ("to", "mto") else mm["observed"]
-    self_ref = ((hr.spec.get("lazy") and any(k in ("selfopt", "selflist") for _f, k in hr.fam.all_fields(c)))
-                or (c == "P" and has_kind(hr.fam, "P", "byname")))
-    if (self_ref and hr.spec.get("mixin") and direction in ("mto", "mfrom") and di is not None
-            and list(obs) == ["exc", "AttributeError" if direction == "mto" else "InvalidFieldValue"]
-            and not any(o[0] == "call" and o[1] == c and o[2] == direction and o[3] is None for o in hr.ops[:mm["index"]])):
-        return {"kind": "lazy-format-self-first-dialect-call", "direction": direction}
     flags = hr.spec.get("flags", ["dialect"])
     if direction in ("to", "mto") and di is not None and ("omit_none" in flags or "by_alias" in flags):
         dspec = hr.spec["dialects"][str(di)]
@@ -655,7 +651,7 @@ def classify_history_failure(hr: HistoryRun, mm: dict) -> dict:
 
 def history_part(ctx: vlib.Ctx, n_hist=None, tag=""):
     r = ctx.rng
-    n_hist = n_hist or ctx.budget(45, 500)
+    n_hist = n_hist or ctx.budget(45, 320)
     cases, descr = [], []
     kf_hits = 0
     for h in range(n_hist):
@@ -856,26 +852,37 @@ def union_part(ctx: vlib.Ctx):
 
 def run(ctx: vlib.Ctx):
     ctx.coverage["rule"] = (
-        "histories: random class families (P, C(P), G(C), S(P), nested Inner; ADD_DIALECT_SUPPORT; 2-4 dialects named alike with "
-        "random omit_none/omit_default/serialize_by_alias/namedtuple_as_dict/no_copy_collections/serialization_strategy) x random "
-        "interleavings of class definitions and to_dict/from_dict calls with dialects from {None, D1..Dk}; distinct = (history, class, "
-        "direction, dialect). codecs: 6 formats x all 2^6 settings (5 options set/unset x strategy map) x dataclass shapes x values; "
-        "distinct = (format, option vector, shape, value). merge: random option namespaces / strategy maps.")
+        "histories: random class families (P, C(P), G(C), S(P), nested mixin Inner, nested plain dataclass Plain; dict / MessagePack / "
+        "ORJSON / TOML mixins; eager, lazy and postponed compilation; Self, by-name and list recursion; classes with and without "
+        "ADD_DIALECT_SUPPORT; keyword-flag options; own Config.dialect; 2-4 dialects named alike with random options and one- or "
+        "two-directional strategies) x random interleavings of class definitions and to_*/from_* calls with dialects from "
+        "{None, D1..Dk}; distinct = (history, class, direction, dialect). documents: random dataclass shapes x Config options x "
+        "dialects x user strategy maps x 6 formats against the Coq document model; codecs: 6 formats x all 2^6 option settings x "
+        "shapes x values; distinct = (format, option vector, shape, value). merge: random option namespaces / strategy maps.")
     for target, names, kernels in PROPS:      # one file per theorem family: a broken proof marks only its own family
         ctx.theorems(target, names, kernels=kernels)
     ctx.trusted += [
-        "DialectCache.step: model of the generated prologue/dispatch of add_(un)pack_method (attribute lookup through the MRO, "
-        "own-namespace creation, dict item assignment); compared with real class families on every run",
+        "DialectCache.step / DialectDeep.call_tree: model of the generated prologue/dispatch of add_(un)pack_method (attribute lookup "
+        "through the MRO, own-namespace creation, dict item assignment, nested calls in field order, forwarding of the dialect keyword); "
+        "compared with real class families on every run",
         "DialectMerge.merge_strategies: hand model of the two strategy loops of Dialect.merge; compared with Dialect.merge on every run",
+        "DialectDoc: document model = OptProj.to_dict_model (C08) + codec_strategies/choice (hand model of the first-hit strategy lookup "
+        "at the default-dialect level); compared with the mapping every real Encoder hands to its format library on every run",
         "DialectTwin.call_effective / union_forward: hand models of keyword-default forwarding and of the union branch order",
-        "tools/kernels/k13_dialect_attrs.py: AST extraction of the attribute names of class Dialect and of the merge key tuple",
+        "tools/kernels/k13*.py: AST extraction (class Dialect attributes, merge key tuple, option read sites, keyword defaults, "
+        "unpack flags and flag call sites, codec plans, format dialect tables, cache name templates); K13C's tables are compared "
+        "with the running classes on every run",
         "format libraries json, orjson, yaml, msgpack, tomli_w/tomllib as parsers of the encoder output",
     ]
     ctx.assumptions += [
-        "twin class = same source with Config.dialect = D on every class that enables ADD_DIALECT_SUPPORT; the original classes "
-        "have no Config.dialect of their own (a call dialect is layered over Config.dialect, not substituted: DialectTwin.layered_witness)",
+        "twin class = same source with Config.dialect = D on every class that enables ADD_DIALECT_SUPPORT; where the classes have a "
+        "Config.dialect of their own the twin is compared only if D says something wherever that one does (a call dialect is layered "
+        "over Config.dialect, not substituted: DialectTwin.layered_witness)",
         "TOML: a dialect that sets omit_none=False together with a None field value is outside the domain (TOML has no null; "
         "the encoder raises TypeError loudly)",
+        "C13_same_document_partial: documents are equal as Python mappings when no field is left to a format-native entry "
+        "(native_free); at format-native types the formats differ by construction (C13_same_document_full_refuted) and meet only "
+        "after the format library renders the value -- that part is decided by the codec sweep (oracle), not by proof",
     ]
     k2_validation(ctx)
     strategy_corr(ctx)
@@ -895,12 +902,17 @@ def run(ctx: vlib.Ctx):
 
 
 def coqchk(ctx: vlib.Ctx):
-    """Second opinion of the independent checker on the compiled property files (thorough tier)."""
+    """Second opinion of the independent checker on the compiled property files (thorough tier), run side by side."""
+    import subprocess
+    procs = []
     for target, _names, _k in PROPS:
         lib = "VerifProps." + os.path.basename(target)[:-3]
-        rc, log, secs = vlib.run(["timeout", "900", "coqchk", "-silent", "-o", "-Q", "theories", "Verif", "-Q", "gen", "VerifGen",
-                                  "-Q", "props", "VerifProps", lib], cwd=vlib.COQ, timeout=930)
-        ok = rc == 0 and "Axioms: <none>" in log and "type-in-type: <none>" in log
+        p = subprocess.Popen(["timeout", "900", "coqchk", "-silent", "-o", "-Q", "theories", "Verif", "-Q", "gen", "VerifGen",
+                              "-Q", "props", "VerifProps", lib], cwd=vlib.COQ, stdout=subprocess.PIPE, stderr=subprocess.STDOUT, text=True)
+        procs.append((lib, p))
+    for lib, p in procs:
+        log = p.communicate()[0]
+        ok = p.returncode == 0 and "Axioms: <none>" in log and "type-in-type: <none>" in log
         ctx.obligation(f"coqchk {lib} (no axioms, no type-in-type, no unsafe fixpoints)", ok, log[-600:])
         if ok:
             ctx.trusted.append(f"coqchk -o {lib}: Axioms: <none>")
